@@ -42,3 +42,14 @@ pub fn vstd_read<R: VReader>(reader: &mut R, buf: &mut Vec<u8>) -> (r: Result<us
             Err(_) => final(reader).remaining() == old(reader).remaining(),
         },
 { unimplemented!() }
+
+// `read_exact(buf)`: fills the whole buffer from the stream or fails (UnexpectedEof when fewer bytes are left); it
+// retries Interrupted itself.  On Err the amount consumed is unspecified.
+#[verifier::external_body]
+pub fn vstd_read_exact<R: VReader>(reader: &mut R, buf: &mut Vec<u8>) -> (r: Result<(), IoError>)
+    ensures
+        final(buf)@.len() == old(buf)@.len(),
+        r is Ok ==> old(buf)@.len() <= old(reader).remaining().len()
+            && final(buf)@ == old(reader).remaining().subrange(0, old(buf)@.len() as int)
+            && final(reader).remaining() == old(reader).remaining().subrange(old(buf)@.len() as int, old(reader).remaining().len() as int),
+{ unimplemented!() }
